@@ -511,6 +511,8 @@ def op_tokens(queries) -> list[str]:
             toks.append(f"s{q[1]}:{q[2]}")
         elif k == "t":
             toks.append("t")
+        elif k == "S":
+            toks.append(f"S{q[1]}:{q[2]}")
     return toks
 
 
@@ -527,7 +529,7 @@ def parse_stream_answer(line: str):
     return None
 
 
-def truth_ops(size: int, reader, queries):
+def truth_ops(size: int, reader, queries, sector_size: int = 512):
     """the immutable-array specification, evaluated in Python on construction truth.
     reader(off, n) -> the n guest bytes at off (off+n <= size)."""
     pos = 0
@@ -575,4 +577,27 @@ def truth_ops(size: int, reader, queries):
             answers.append(f"P{pos}")
         elif k == "t":
             answers.append(f"P{pos}")
+        elif k == "S":
+            ss = sector_size
+            answers.append(crc_answer(reader(q[1] * ss, q[2] * ss)))
     return answers
+
+
+def impl_ops_sec(stream, queries):
+    """like impl_ops but also understands ["S", sector, count] = stream.read_sectors(sector, count)"""
+    answers, errors = [], {}
+    for i, q in enumerate(queries):
+        if q[0] == "S":
+            try:
+                answers.append(crc_answer(stream.read_sectors(q[1], q[2])))
+            except Exception as e:  # noqa
+                answers.append("E")
+                errors[str(i)] = f"{type(e).__name__}: {e}"[:300]
+                break
+        else:
+            r = impl_ops(stream, [q])
+            answers += r["answers"]
+            if r["errors"]:
+                errors[str(i)] = list(r["errors"].values())[0]
+                break
+    return {"answers": answers, "errors": errors}
